@@ -232,7 +232,7 @@ def soup_regs(rng, pool=None, bad_ecall=0.15):
             regs[str(r)] = rng.choice([0, 1, 2, M32, 0x80000000, 0x7FFFFFFF, rng.getrandbits(32), 10, 17, 4, 93, 11, 34])
     regs["17"] = rng.choice(ECALL_CODES) if rng.random() > bad_ecall else rng.choice([0, 5, 12])
     regs["10"] = rng.choice([0, 1, 0x4000, 0x4010, 65, M32, rng.getrandbits(32)])
-    regs["31"] = 0x4000 + rng.choice([0, 0, 0x40, 0x1000])
+    regs["31"] = rng.choice([0x4000, 0x4000, 0x4040, 0x5000, 0x4000, 0x7FFFFFE0, 0x80000000, 0xFFFFFF80, 0xFFFFFFC0])
     return regs
 
 
